@@ -45,7 +45,8 @@ ASSUMPTIONS = [
 ]
 MUST_REACH = {"roundtrips": 800, "templates_covered": 481, "beautified_roundtrips": 300, "packed_fields_printed": 200,
               "multiline_strings": 30, "replacement_hits": 30, "safe_fuzz_texts": 300, "safe_fuzz_rejected_eval": 50,
-              "registered_payload_messages": 100, "same_bytes_two_contexts": 5, "damaged_registered_payloads": 5, "degenerate_registered_payloads": 5}
+              "registered_payload_messages": 100, "same_bytes_two_contexts": 5, "damaged_registered_payloads": 5, "degenerate_registered_payloads": 5,
+              "replacement_semantics_cases": 20, "replacement_semantics_falsy_values": 4, "replacement_hits_lazy_table": 3}
 
 _ser = UDPMessageSerializer()
 _es = Settings()
@@ -56,6 +57,14 @@ AGENT_ID = UUID("11111111-2222-3333-4444-555555555555")
 SESSION_ID = UUID("aaaaaaaa-bbbb-cccc-dddd-eeeeeeeeeeee")
 CIRCUIT_CODE = 123456789
 TABLE = {"AGENT_ID": AGENT_ID, "SESSION_ID": SESSION_ID, "CIRCUIT_CODE": CIRCUIT_CODE}
+# the table is the caller's: a second one whose values are all "zero-like" (a session with circuit code 0, null keys) and a
+# third whose entries are computed on demand (the GUI passes e.g. UUID.random that way); 0 = no table
+ZERO_TABLE = {"AGENT_ID": UUID(int=0), "SESSION_ID": UUID(int=0), "CIRCUIT_CODE": 0}
+TABLES = {
+    1: (TABLE, TABLE),
+    2: (ZERO_TABLE, ZERO_TABLE),
+    3: (TABLE, {k: (lambda v=v: v) for k, v in TABLE.items()}),       # (used for printing, used for parsing)
+}
 
 # ------------------------------------------------------------------ safe-mode monitor
 
@@ -103,6 +112,47 @@ def safe_parse(text, replacements=None):
     return res, tuple(a - b for a, b in zip(after, before))
 
 
+# ------------------------------------------------------------------ what a [[NAME]] in the text stands for
+
+def check_replacement_semantics(ctx, rng):
+    """`Field = [[NAME]]` stands for the table's value for NAME (called first if it is callable), whatever that value is -
+    zero, a null key, a falsy value - and only a NAME the table does not define is an error."""
+    cases = []
+    for code in (0, 1, 5, 2 ** 32 - 1):
+        for lazy in (False, True):
+            cases.append(("UseCircuitCode", "CircuitCode", "Code", code, lazy,
+                          "OUT UseCircuitCode\n[CircuitCode]\n  Code = [[X]]\n  SessionID = [[S]]\n  ID = [[A]]\n"))
+    for local in (0, 1, 7, 2 ** 32 - 1):
+        for lazy in (False, True):
+            cases.append(("ObjectSelect", "ObjectData", "ObjectLocalID", local, lazy,
+                          "OUT ObjectSelect\n[AgentData]\n  AgentID = [[A]]\n  SessionID = [[S]]\n[ObjectData]\n  ObjectLocalID = [[X]]\n"))
+    for key in (UUID(int=0), UUID(int=1), AGENT_ID):
+        for lazy in (False, True):
+            cases.append(("ObjectSelect", "AgentData", "AgentID", key, lazy,
+                          "OUT ObjectSelect\n[AgentData]\n  AgentID = [[X]]\n  SessionID = [[S]]\n[ObjectData]\n  ObjectLocalID = [[L]]\n"))
+    for (name, block, var, val, lazy, text) in cases:
+        table = {"X": (lambda v=val: v) if lazy else val, "A": AGENT_ID, "S": SESSION_ID, "L": 3}
+        wit = {"message": name, "field": f"{block}.{var}", "value": repr(val), "lazy": lazy, "text": text}
+        ctx.ev()
+        back, evals = safe_parse(text, table)
+        if isinstance(back, Exception):
+            ctx.violation("replacement-rejected:" + ("lazy" if lazy else "plain") + ":" + ("falsy" if not val or val == UUID(int=0)
+                                                                                          else "other"),
+                          "a [[NAME]] the table defines was rejected", dict(wit, exc=repr(back)[:200]))
+            continue
+        got = back[block][0][var]
+        if got != val:
+            ctx.violation("replacement-wrong-value", "a [[NAME]] did not stand for the table's value", dict(wit, got=repr(got)))
+            continue
+        ctx.count("replacement_semantics_cases")
+        if not val or val == UUID(int=0):
+            ctx.count("replacement_semantics_falsy_values")
+        # a name the table lacks is an error, not a silent default
+        back2, _ = safe_parse(text, {k: v for k, v in table.items() if k != "X"})
+        if not isinstance(back2, Exception):
+            ctx.violation("undefined-replacement-accepted", "a [[NAME]] the table does not define was accepted", wit)
+
+
 # ------------------------------------------------------------------ round trip
 
 def body_of(msg, like):
@@ -131,7 +181,9 @@ def classify_parse_error(msg, tmpl, text, exc):
 
 def check_roundtrip(ctx, tmpl, spec, msg, beautify, table, wit_extra):
     ctx.ev()
-    repl = dict(TABLE) if table else None
+    table = int(table)
+    repl = dict(TABLES[table][0]) if table else None
+    parse_repl = dict(TABLES[table][1]) if table else None
     wit = dict(wit_extra, message=tmpl.name, beautify=beautify, table=table)
     try:
         text = str(mf.HumanMessageSerializer.to_human_string(msg, replacements=repl, beautify=beautify, template=tmpl))
@@ -144,7 +196,11 @@ def check_roundtrip(ctx, tmpl, spec, msg, beautify, table, wit_extra):
         ctx.count("multiline_strings")
     if "[[" in text:
         ctx.count("replacement_hits")
-    back, evals = safe_parse(text, repl)
+        if table == 2:
+            ctx.count("replacement_hits_zero_valued_table")
+        if table == 3:
+            ctx.count("replacement_hits_lazy_table")
+    back, evals = safe_parse(text, parse_repl)
     if any(evals):
         ctx.violation("safe-mode-evaluated", "safe-mode parsing of the proxy's own text evaluated code",
                       dict(wit, text=text[:600], evals=list(evals)))
@@ -472,15 +528,17 @@ def run(ctx):
                 ctx.count("registered_payload_messages")
             force_awkward_strings(rng, tmpl, spec)
             # the replacement table needs matching values now and then
+            tv = rng.choice([1, 1, 2, 3])
+            tvals = TABLES[tv][0]
             for (bname, entries) in spec["blocks"]:
                 for ent in entries or ():
                     if bname == "AgentData" and rng.random() < 0.5:
                         if "AgentID" in ent and ent["AgentID"][0] == "u":
-                            ent["AgentID"] = ["u", str(AGENT_ID)]
+                            ent["AgentID"] = ["u", str(tvals["AGENT_ID"])]
                         if "SessionID" in ent and ent["SessionID"][0] == "u":
-                            ent["SessionID"] = ["u", str(SESSION_ID)]
+                            ent["SessionID"] = ["u", str(tvals["SESSION_ID"])]
                     if "Code" in ent and ent["Code"][0] == "i" and "Circuit" in bname:
-                        ent["Code"] = ["i", CIRCUIT_CODE]
+                        ent["Code"] = ["i", tvals["CIRCUIT_CODE"]]
             try:
                 data = wire.ref_encode(tmpl, spec)
                 msg = _deser.deserialize(data)
@@ -489,7 +547,7 @@ def run(ctx):
                 continue
             msg.direction = rng.choice(list(type(msg.direction)))
             for beautify in (False, True):
-                for table in (False, True):
+                for table in (0, tv):
                     # every message object is printed from a fresh decode (printing may fill per-block caches)
                     m = _deser.deserialize(data)
                     m.direction = msg.direction
@@ -498,6 +556,8 @@ def run(ctx):
     ctx.count("damaged_registered_payloads", _STATE.get("damaged_registered_payloads", 0))
     ctx.count("degenerate_registered_payloads", _STATE.get("degenerate_registered_payloads", 0))
     safe_fuzz(ctx, rng)
+    if ctx.shard == 0:
+        check_replacement_semantics(ctx, rng)
 
 
 def replay(ctx, w):
